@@ -369,6 +369,12 @@ def rope_contains(hay, needle):
         return needle in hay
     nd = rope_concrete(needle) if is_sym(needle) else needle
     if nd is None:
+        from .sym import chunk_same
+        nr = to_rope(needle)
+        if len(nr.chunks) == 1 and isinstance(nr.chunks[0], BX):
+            # an opaque chunk (e.g. a formatted number) is contained if the very same chunk occurs in the haystack
+            if any(chunk_same(nr.chunks[0], ch) for ch in to_rope(hay).chunks):
+                return True
         raise OutOfReach("symbolic needle in containment test")
     if len(nd) == 0:
         return True
